@@ -14,6 +14,7 @@ import (
 	"github.com/apmckinlay/gsuneido/core"
 	"github.com/apmckinlay/gsuneido/db19"
 	"github.com/apmckinlay/gsuneido/db19/meta/schema"
+	"github.com/apmckinlay/gsuneido/db19/stor"
 	"github.com/apmckinlay/gsuneido/dbms/query"
 )
 
@@ -53,6 +54,46 @@ func CreateReal(path string, persistEvery time.Duration) (*Real, error) {
 	}
 	db19.StartConcur(db, persistEvery)
 	return &Real{DB: db, Path: path}, nil
+}
+
+// State record format, restated independently of db19's unexported constants.
+const (
+	StateMagic1 = "\x01\x23\x45\x67\x89\xab\xcd\xef"
+	StateMagic2 = "\xfe\xdc\xba\x98\x76\x54\x32\x10"
+	StateLen    = 36 // magic1 8, time 8, two 5-byte offsets, checksum 2, magic2 8
+)
+
+// ScanStates finds the offsets of all state records in the bytes of a database file.
+func ScanStates(data []byte) []int {
+	var offs []int
+	for i := 0; ; {
+		j := strings.Index(string(data[i:]), StateMagic1)
+		if j < 0 {
+			break
+		}
+		off := i + j
+		if off+StateLen <= len(data) && string(data[off+StateLen-8:off+StateLen]) == StateMagic2 {
+			offs = append(offs, off)
+		}
+		i = off + 1
+	}
+	return offs
+}
+
+// StateTime decodes the time stamp (unix milliseconds) of the state record in b.
+func StateTime(b []byte) int64 {
+	var t int64
+	for _, c := range b[8:16] {
+		t = t<<8 | int64(c)
+	}
+	return t
+}
+
+// CreateHeapReal creates a database on a heap store (no file).
+func CreateHeapReal(persistEvery time.Duration) *Real {
+	db := db19.CreateDb(stor.HeapStor(64 * 1024))
+	db19.StartConcur(db, persistEvery)
+	return &Real{DB: db}
 }
 
 // OpenReal opens an existing file database (with the start-up quick check).
